@@ -506,6 +506,8 @@ def binop(E, op, a, b, inplace=False):
             return SFlt(b.t, (b.scale if isinstance(b, SFlt) else 1.0) * a)
         if op in (ast.FloorDiv, ast.Div) and isinstance(a, SFlt) and isinstance(b, float) and b != 0:
             return SFlt(a.t, a.scale / b)
+        if op is ast.Div and isinstance(a, SInt) and isinstance(b, float) and b != 0:
+            return SFlt(a.t, 1.0 / b)
         raise Unsupported("float arithmetic with symbolic operand")
     x = E.as_int(a)
     y = E.as_int(b)
@@ -777,6 +779,8 @@ def compare(E, op, a, b):
 def getitem(E, obj, idx):
     if isinstance(obj, SOpt):
         obj = E.deopt(obj)
+    if hasattr(obj, "pyvc_getitem"):
+        return obj.pyvc_getitem(E, idx)
     if obj is None:
         E.raise_(TypeError, "NoneType is not subscriptable", implicit="none-subscript")
     if isinstance(obj, SSeq):
